@@ -9,6 +9,9 @@
 //! lazy                     clone().lazy_gaussian_elimination()            -> ok <[sol]> <eqs> | err <eqs> | panic
 //! keep                     system := the clone left by the last gauss/lazy that returned -> ok | none
 //! check <[sol]>            check(&sol)                                    -> ok 0|1 | panic
+//! system_parts <num_vars> <W>   as `system`, but from here on the real system of every solver /
+//!                          check / dims op is assembled with `Modulo2System::from_parts`    -> ok
+//! dims                     num_vars() and num_equations()                 -> ok <num_vars> <num_equations>
 //! ```
 //! `<eqs>`: equations of the clone after the call (read through `Debug`), `[vars]:c` joined by
 //! `|`, `-` if there are none.
@@ -57,10 +60,17 @@ struct S {
     w: u32,
     eqs: Vec<Eq>,
     last: Option<Vec<Eq>>,
+    /// assemble the real system with `Modulo2System::from_parts` instead of `new` + `push`
+    parts: bool,
 }
 
 fn fresh() -> S {
-    S { nv: 0, w: 64, eqs: vec![], last: None }
+    S { nv: 0, w: 64, eqs: vec![], last: None, parts: false }
+}
+
+thread_local! {
+    /// constructor used by `build` (set from `S::parts` by `exec`)
+    static VIA_PARTS: std::cell::Cell<bool> = const { std::cell::Cell::new(false) };
 }
 
 fn parse_list(s: &str) -> Vec<u128> {
@@ -105,11 +115,23 @@ fn fmt_eqs(eqs: &[Eq]) -> String {
 }
 
 fn build<W: Wd>(nv: usize, eqs: &[Eq]) -> Modulo2System<W> {
+    if VIA_PARTS.with(|c| c.get()) {
+        let v: Vec<Modulo2Equation<W>> = eqs
+            .iter()
+            .map(|(v, c)| unsafe { Modulo2Equation::from_parts(v.clone(), W::from128(*c)) })
+            .collect();
+        return unsafe { Modulo2System::<W>::from_parts(nv, v) };
+    }
     let mut s = Modulo2System::<W>::new(nv);
     for (v, c) in eqs {
         s.push(unsafe { Modulo2Equation::from_parts(v.clone(), W::from128(*c)) });
     }
     s
+}
+
+fn do_dims<W: Wd>(nv: usize, eqs: &[Eq]) -> Option<(usize, usize)> {
+    let sys = build::<W>(nv, eqs);
+    catch(|| (sys.num_vars(), sys.num_equations()))
 }
 
 fn try_eq<W: Wd>(vars: &[u32], c: u128) -> bool {
@@ -265,13 +287,23 @@ struct Last {
 fn exec(ctx: &mut Ctx, s: &mut S, lastsol: &mut Last, op: &str) -> String {
     ctx.op(op);
     let t: Vec<&str> = op.split(' ').collect();
+    VIA_PARTS.with(|c| c.set(s.parts && t[0] != "system"));
     let reply: String = match t[0] {
-        "system" => {
+        "system" | "system_parts" => {
             s.nv = t[1].parse().unwrap();
             s.w = t[2].parse().unwrap();
             s.eqs.clear();
             s.last = None;
+            s.parts = t[0] == "system_parts";
             "ok".into()
+        }
+        "dims" => {
+            let r = match dispatch!(s.w, do_dims, s.nv, &s.eqs) {
+                Some((a, b)) => format!("ok {} {}", a, b),
+                None => "panic".into(),
+            };
+            ctx.check_oracle(&format!("ok {} {}", s.nv, s.eqs.len()), &r);
+            r
         }
         "eq" => {
             let vars: Vec<u32> = parse_list(t[1]).into_iter().map(|x| x as u32).collect();
@@ -618,10 +650,14 @@ fn run_system(ctx: &mut Ctx, kind: &str, nv: usize, w: u32, eqs: &[Eq], extra: b
     ctx.case();
     let mut s = fresh();
     let mut last = Last { sol: None };
-    exec(ctx, &mut s, &mut last, &format!("system {} {}", nv, w));
+    // one system in three is assembled with the unsafe constructor `Modulo2System::from_parts`
+    let ctor = if (nv + eqs.len()) % 3 == 1 { "system_parts" } else { "system" };
+    exec(ctx, &mut s, &mut last, &format!("{} {} {}", ctor, nv, w));
+    exec(ctx, &mut s, &mut last, "dims");
     for (v, c) in eqs {
         exec(ctx, &mut s, &mut last, &format!("eq {} {}", fmt_list(v.iter()), c));
     }
+    exec(ctx, &mut s, &mut last, "dims");
     let n = s.eqs.len();
     let mut classes = vec![];
     let order: &[&str] = if ctx.rng.bool() { &["gauss", "lazy"] } else { &["lazy", "gauss"] };
